@@ -103,6 +103,19 @@ def run_molecule(text, sched_kwargs, props=("C04", "C05", "C06", "C07", "C08"), 
                 out.exc = exc
                 out.exc_tb = traceback.format_exc()
                 return out
+            if entry == "mirror":
+                # the caller's AST is the mirrored one (notation.mirror_ast); a molecule with fewer than two elements has no mirror
+                try:
+                    mol = mol.gen_mirror()
+                except SimAbort:
+                    raise
+                except Exception as exc:
+                    out.exc = exc
+                    out.exc_tb = traceback.format_exc()
+                    return out
+                if mol is None:
+                    out.harness_error = "gen_mirror() returned None for a molecule with several elements"
+                    return out
             out.mol_obj = mol
             staged = None
             if entry == "staged":
